@@ -100,7 +100,7 @@ _RE_TIME = re.compile(r'(\d{1,2}:\d{1,2}(:\d{1,2})?([.,]\d+)?)', flags=re.ASCII)
 # YYYY-MM-DD  YYYY-month-DD
 _RE_YMD = re.compile(r'([0-9]{4})-([^\W\d_]{3,}|[0-9]{2})-([0-9]{2})')
 
-_RE_YEAR = re.compile(r'(\d{4})', flags=re.ASCII)
+_RE_YEAR = re.compile(r'(?<!\d)(\d{4})(?!\d)', flags=re.ASCII)   # exactly four digits
 _RE_ISO_DM = re.compile(
     r'--(\d{2})-?(\d{2})', flags=re.ASCII)  # --MMDD --MM-DD (not valid ISO 8601, see the docs)
 _RE_MONTH = re.compile(r'([^\W\d_]{3,})\.?')
